@@ -1,3 +1,48 @@
-From Coq Require Import List String.
-Example C09_placeholder : True. Proof. exact I. Qed.
-Print Assumptions C09_placeholder.
+(** C09 — the ">" (last) operator returns the greatest entry of each group.  Property theorems only (list-backed finder;
+    the file-system finders use the same sorted_search over their own star search). *)
+From Coq Require Import List String Ascii Bool Arith Permutation Sorted.
+From Spil Require Import Base.Str Base.Dict Base.Outcome Regex.Re Conf.Conf Conf.WF Sid.Sid
+  Search.Unfold Search.FindList Search.GlobProofs Search.FindListProofs Search.UnfoldProofs.
+From SpilGen Require Hamlet.
+Import ListNotations.
+Local Open Scope string_scope.
+
+(* comparison "segment by segment as strings" is a strict total order *)
+Theorem C09_order : (forall a, segs_ltb a a = false)
+  /\ (forall a b c, segs_ltb a b = true -> segs_ltb b c = true -> segs_ltb a c = true)
+  /\ (forall a b, segs_ltb a b = false -> segs_ltb b a = false -> a = b).
+Proof. exact segs_ltb_strict_total_order. Qed.
+Print Assumptions C09_order.
+
+Theorem C09_sort : forall l, Permutation l (sort_paths l) /\ StronglySorted path_le (sort_paths l).
+Proof. exact sort_paths_spec. Qed.
+Print Assumptions C09_sort.
+
+(* one result per distinct combination of the segments before the ">" position: the greatest of its group *)
+Theorem C09_groups : forall index l, StronglySorted seg_ge l ->
+  let res := group_firsts (fun x => firstn index (split_c "/" x)) l None in
+  incl res l /\
+  (forall e, In e l -> exists r, In r res /\ firstn index (split_c "/" r) = firstn index (split_c "/" e) /\
+                                  segs_ltb (split_c "/" r) (split_c "/" e) = false) /\
+  NoDup (map (fun x => firstn index (split_c "/" x)) res).
+Proof. exact group_firsts_spec. Qed.
+Print Assumptions C09_groups.
+
+Theorem C09_sorted_search : forall L qs items l, sorted_search L qs items = Ok l ->
+  (qs = [] /\ l = []) \/
+  exists q0 rest index founds,
+    qs = q0 :: rest /\ index_of ">" (split_c "/" (s_string q0)) = Some index /\
+    concat_mapM (fun q => do q' <- Sid L (replace ">" "*" (uri q)); star_search [q'] items) qs = Ok founds /\
+    (let k := fun x => firstn index (split_c "/" x) in
+     (forall r, In r l -> In r founds) /\
+     (forall e, In e founds -> exists r, In r l /\ k r = k e /\ segs_ltb (split_c "/" r) (split_c "/" e) = false) /\
+     NoDup (map k l)).
+Proof. exact sorted_search_spec. Qed.
+Print Assumptions C09_sorted_search.
+
+(* the repaired defect (D11): names containing a character below "/" *)
+Example C09_instance :
+  find_list Hamlet.the_loaded ["hamlet/a/fx/a/model"; "hamlet/a/fx/a-b/model"; "hamlet/a/fx/a-b"; "hamlet/a/fx/a"] "hamlet/a/*/>/model"
+  = Ok ["hamlet/a/fx/a-b/model"].
+Proof. vm_compute. reflexivity. Qed.
+Print Assumptions C09_instance.
